@@ -412,6 +412,8 @@ impl<'a> Reader for ProtobufReader<'a> {
 
     #[inline]
     fn read_null<C: null::Constraint>(&mut self) -> Result<Null, Self::Error> {
+        // NULL occupies a field number
+        let _ = self.next_tag_range_filter_format::<true>(Format::LengthDelimited);
         Ok(Null)
     }
 }
